@@ -10,6 +10,7 @@ import (
 	"fmt"
 	"sync"
 	"testing"
+	"time"
 
 	"github.com/Trendyol/go-dcp/config"
 	"github.com/Trendyol/go-dcp/helpers"
@@ -417,5 +418,105 @@ func init() {
 			return "bad scenario: " + err.Error()
 		}
 		return c09ExecGroup(g)
+	})
+}
+
+// ---------- the partition of a Couchbase-membership group (heart-beat documents on the simulated node) ----------
+
+// TestC09_CouchbaseGroup: generated join / leave histories of real cbMembership instances (child process, as in C10);
+// the (member number, group size) every live member holds at the end is turned into vBucket sets by the partition rule
+// and the sets must partition the bucket.
+func TestC09_CouchbaseGroup(t *testing.T) {
+	n := scale(16, 1200)
+	_, nsh := shard()
+	var scs []c10CB
+	rapid.Check(t, func(rt *rapid.T) {
+		if len(scs) > 0 {
+			return
+		}
+		for i := 0; i < (n+nsh-1)/nsh; i++ {
+			sc := c10CB{}
+			liveN := 0
+			for j, k := 0, rapid.IntRange(2, 6).Draw(rt, "nops"); j < k; j++ {
+				if liveN < 2 || (liveN < 5 && rapid.IntRange(0, 2).Draw(rt, "join") > 0) {
+					sc.Ops = append(sc.Ops, c10Op{Join: true})
+					liveN++
+				} else {
+					sc.Ops = append(sc.Ops, c10Op{Leave: rapid.IntRange(0, liveN-1).Draw(rt, "who")})
+					liveN--
+				}
+			}
+			scs = append(scs, sc)
+		}
+	})
+	run := func(sc c10CB) (string, bool) {
+		r := runChild("c10cb", sc, 120*time.Second)
+		if r.TimeOut || r.Exit != 0 {
+			return "", true // C10's business (a hang / a dead member process)
+		}
+		var res c10CBResult
+		if err := json.Unmarshal(r.Result, &res); err != nil || res.Timing {
+			return "", true
+		}
+		const numVb = 1024
+		owner := make([]int, numVb)
+		for i := range owner {
+			owner[i] = -1
+		}
+		for mi, s := range res.Settled {
+			if s[1] <= 0 || s[0] <= 0 || s[0] > s[1] || s[1] > numVb {
+				return fmt.Sprintf("member #%d holds the numbering %d/%d at the end of the history (%v)", mi, s[0], s[1], res.Settled), false
+			}
+			for _, v := range helpers.ChunkSlice[uint16](c09Slice(numVb), s[1])[s[0]-1] {
+				if owner[v] >= 0 {
+					return fmt.Sprintf("vBucket %d is owned by member #%d (%d/%d) and member #%d (%d/%d) at the end of the history", v, owner[v], res.Settled[owner[v]][0], res.Settled[owner[v]][1], mi, s[0], s[1]), false
+				}
+				owner[v] = mi
+			}
+		}
+		for v, o := range owner {
+			if o < 0 && len(res.Settled) > 0 {
+				return fmt.Sprintf("vBucket %d has no owner at the end of the history (members hold %v)", v, res.Settled), false
+			}
+		}
+		return "", false
+	}
+	out := make([]string, len(scs))
+	skip := make([]bool, len(scs))
+	var wg sync.WaitGroup
+	sem := make(chan struct{}, 8)
+	for i := range scs {
+		wg.Add(1)
+		go func(i int) {
+			defer wg.Done()
+			sem <- struct{}{}
+			defer func() { <-sem }()
+			out[i], skip[i] = run(scs[i])
+			if out[i] != "" || skip[i] {
+				out[i], skip[i] = run(scs[i]) // convergence is bounded by real time: only a repeated miss is reported
+			}
+		}(i)
+	}
+	wg.Wait()
+	for i, d := range out {
+		if skip[i] {
+			countDiscarded("C09")
+			continue
+		}
+		if d != "" {
+			violation(t, "C09", "c09cbgroup", scs[i], "%s", d)
+		}
+		record("C09", scs[i], len(scs[i].Ops) >= 3, "couchbase_groups")
+	}
+}
+
+func init() {
+	registerReplay("c09cbgroup", func(raw json.RawMessage) string {
+		var sc c10CB
+		if err := json.Unmarshal(raw, &sc); err != nil {
+			return "bad scenario: " + err.Error()
+		}
+		d, _ := c10ExecCB(sc)
+		return d
 	})
 }
